@@ -70,6 +70,7 @@ func createASTTypeExpr(pkg string, t types.Type, varPool *VarPool, imports map[s
 					IsDefaultName: newPkgName == pkgName,
 					IsUsed:        false, // Will be marked during code generation
 				}
+				pkgName = newPkgName
 			}
 
 			namedExpr = &ast.SelectorExpr{
@@ -121,6 +122,7 @@ func createASTTypeExpr(pkg string, t types.Type, varPool *VarPool, imports map[s
 					IsDefaultName: newPkgName == pkgName,
 					IsUsed:        false, // Will be marked during code generation
 				}
+				pkgName = newPkgName
 			}
 
 			return &ast.SelectorExpr{
